@@ -235,9 +235,6 @@ inductive Err where
   | unexpectedKey      -- derived `access_assign` without setter / fallback: "unexpected key: …"
   | oob
   | noIndex
-  | iterThrown         -- an error thrown inside `@next` during `for`: re-raised as its *message*
-  | iterUnimpl         -- idem for a thrown `koto.unimplemented`
-  | iterType           -- idem for a type error raised while calling `@next`
   | notReversible      -- `iterator.reversed`: "the provided iterator isn't bidirectional"
   | display            -- "failed to get display value"
   | diverge            -- the operation would not terminate (never generated)
@@ -868,10 +865,8 @@ def forLoop (o : Opd) : Out :=
       else
         match nextLoop tag .Next mv m.av with
         | (t, .ok xs) => ⟨t, .ok (.lst xs)⟩
-        -- `run_iterator_next`: `KIteratorOutput::Error(e) => runtime_error!(e.to_string())`
-        | (t, .error .thrown) => ⟨t, .err .iterThrown⟩
-        | (t, .error .thrownUnimpl) => ⟨t, .err .iterUnimpl⟩
-        | (t, .error .type) => ⟨t, .err .iterType⟩
+        -- `run_iterator_next`: `KIteratorOutput::Error(e) => return Err(e)` — the error (thrown value,
+        -- kind) reaches the script unchanged (/repo 08c98b7)
         | (t, .error e) => ⟨t, .err e⟩
     | Option.none =>
       match m.metaGet .Iterator with
